@@ -418,6 +418,7 @@ struct Tol
 {
    double feas = 1e-6, opt = 1e-6;
    double alarm = 10.0;     // multiple of tau beyond which we alarm
+   double rnd = 1e-9;       // relative allowance on the magnitude of the summed terms (badly scaled data: 1e-6, see monitorOptimal)
 };
 
 // Checks the OPTIMAL certificate in the user's space, element by element, exactly.  Returns "" if fine, else
@@ -428,7 +429,9 @@ inline std::string monitorOptimal(const LPModel& M, const SolveOut& o, const Tol
    if((int)o.x.size() != M.n || (int)o.y.size() != M.m || (int)o.s.size() != M.m || (int)o.r.size() != M.n)
       return "vectors:missing solution vector(s) although status is OPTIMAL";
    Sink& S = sink();
-   const double F = t.alarm * t.feas, O = t.alarm * t.opt, RND = 1e-9;
+   // badly scaled instances (entries spanning 2^+-40, possibly solved with scaling switched off): the solver's tolerances are absolute
+   // in its working space, so on rows whose terms are 1e10 a relative accuracy of 1e-9 is not something the property promises
+   const double F = t.alarm * t.feas, O = t.alarm * t.opt, RND = (M.family == "badly-scaled" ? std::max(t.rnd, 1e-6) : t.rnd);
    std::string bad;
    auto fail = [&](const std::string & s_)
    {
@@ -552,7 +555,7 @@ inline std::string monitorOptimal(const LPModel& M, const SolveOut& o, const Tol
          pobj += M.obj[j] * o.x[j];
          osc += qabs(M.obj[j] * o.x[j]);
       }
-   double wOb = std::fabs(o.objval - dq(pobj)) / (1e-9 * (1.0 + dq(osc)));
+   double wOb = std::fabs(o.objval - dq(pobj)) / (RND * (1.0 + dq(osc)));
    if(wOb > 1) fail("objvalue:objValueReal " + ds(o.objval) + " != c.x+offset " + ds(dq(pobj)));
    S.maxi(pfx + "boundViol/thr", wB);
    S.maxi(pfx + "sideViol/thr", wS);
